@@ -3,7 +3,7 @@ from assemble import Item
 
 NAME = 'nnumcmp'
 PRELUDE = ['base', 'bigint', 'float', 'rational']
-SPECS = ['nnumcmp.rs', 'realarith.rs']
+SPECS = ['nnumcmp.rs', 'realarith.rs', 'prime.rs']
 DEPS = ['nint', 'nnum']
 NEEDS_EXPANDED = True
 
@@ -68,6 +68,11 @@ ITEMS = [
     Item(id='max_consuming', source=S, locator='impl NNum / fn max_consuming',
          ensures=[('is_an_argument', 'r == self || r == other'),
                   ('not_less_than_the_other_on_reals', '(num_partial_cmp_spec(self@, other@) is Some) ==> (num_partial_cmp_spec(r@, self@) != Some(Ordering::Less) && num_partial_cmp_spec(r@, other@) != Some(Ordering::Less))')], props=P8),
+    Item(id='is_prime', source=S, locator='impl NNum / fn is_prime',
+         ensures=[('integers_by_definition', 'self@ is Int ==> r == is_prime(self@->Int_0)'),
+                  ('integral_rationals_like_the_integer', 'self@ is Rat ==> r == (self@->Rat_0 == ir(self@->Rat_0.floor()) && is_prime(self@->Rat_0.floor()))'),
+                  ('integral_floats_like_the_integer', 'self@ is Flt ==> r == (match fv(self@->Flt_0) { FV::Fin(v) => v == ir(v.floor()) && is_prime(v.floor()), _ => false })')],
+         props=['C06']),
     Item(id='NAN_HASH', kind='type', source=S, locator='const NAN_HASH'),
     Item(id='hash_fraction', source=S, locator='fn hash_fraction',
          ensures=[('numerator_then_denominator', 'final(state).hlog() == old(state).hlog() + frac_hash_words(r@)')], props=['C09']),
